@@ -113,7 +113,9 @@ RcClocks(pre, e) ==
     \A k \in DOMAIN post.rc :
        LET was == IF Has(pre.rc, k) THEN pre.rc[k] ELSE EmptyRc
            now == post.rc[k]
-           placedTrades == SeqToSet(was.trades) \cup SeqToSet(now.trades)
+           \* placed = charged to the runner, or holding an order that is in the blotter (the runner's accounting is
+           \* released when its market closes; a re-opened market's trades are still placed trades)
+           placedTrades == SeqToSet(was.trades) \cup SeqToSet(now.trades) \cup {t \in DOMAIN post.trd : TradePlaced(post, t)}
            done == {t \in DOMAIN post.trd : /\ post.trd[t].rck = k /\ t \in placedTrades
                                              /\ post.trd[t].status = "COMPLETE"
                                              /\ (~Has(pre.trd, t) \/ pre.trd[t].status # "COMPLETE")}
@@ -417,6 +419,20 @@ P_C09(pre, e) ==
                                         /\ \E d \in {-1, 1} : ReducedPriceOk(post.ord[o].frags[j][2] + d, pre.ord[o].frags[j][2], af))
                                ELSE post.ord[o].frags[j][2] = pre.ord[o].frags[j][2],
                                <<o, j, pre.ord[o].frags[j][2], post.ord[o].frags[j][2], af>>))
+         \* market-on-close lay liabilities on the other runners are scaled by the exchange's non-runner formula,
+         \* whatever the size of the factor: win markets 1 - af / (100 - the runner's own factor), place markets 1 - af / 100
+         /\ (Len(e.a.newly_removed) = 1 /\ e.a.mtype \in {"WIN", "PLACE", "OTHER_PLACE"} =>
+               LET sk == e.a.newly_removed[1][1]
+                   af == IF e.a.newly_removed[1][2] < 0 THEN 0 ELSE e.a.newly_removed[1][2]
+               IN \A o \in DOMAIN pre.ord :
+                    (pre.ord[o].mid = e.a.mid /\ pre.ord[o].inbl /\ pre.ord[o].selk # sk /\ Has(post.ord, o)
+                     /\ pre.ord[o].type = "MARKET_ON_CLOSE" /\ pre.ord[o].side = "LAY" /\ pre.ord[o].selk \in DOMAIN e.a.book.r) =>
+                       LET raf0 == e.a.book.r[pre.ord[o].selk].af
+                           raf == IF raf0 < 0 THEN 0 ELSE raf0
+                           den == IF e.a.mtype = "WIN" THEN 10000 - raf ELSE 10000
+                       IN Ck("C09", "MocLayLiabilityScaled",
+                             den > 0 /\ Abs(post.ord[o].size * den - pre.ord[o].size * (den - af)) <= den,
+                             <<o, "liability", pre.ord[o].size, post.ord[o].size, "factor", af, "own factor", raf, e.a.mtype>>))
          \* no reduction without a new removal in this market
          /\ (e.a.newly_removed = <<>> =>
                \A o \in DOMAIN pre.ord :
